@@ -271,7 +271,17 @@ class HTMLExtractor(htmlparser.HTMLParser):
 
     def parse_html_declaration(self, i: int) -> int:
         if self.at_line_start() or self.intail:
-            return super().parse_html_declaration(i)
+            try:
+                return super().parse_html_declaration(i)
+            except AssertionError:
+                # The standard library scanner asserts on a marked section (`<![`) with an unknown or missing
+                # keyword. Never raise on bad input: pass it through as a bogus comment, or as plain text
+                # when it is not terminated.
+                result = self.parse_bogus_comment(i)
+                if result == -1:
+                    self.handle_data(self.rawdata[i:i + 1])
+                    return i + 1
+                return result
         # This is not the beginning of a raw block so treat as plain data
         # and avoid consuming any tags which may follow (see #1066).
         self.handle_data('<!')
